@@ -87,6 +87,24 @@ void dtw_settings_print(DTWSettings *settings) {
 // MARK: WPS
 
 /*!
+Compact warping paths layout: matrix column c of row ri (0-based row of the first series)
+is stored at index c - dtw_wps_shift(p, ri) of that row.
+*/
+static idx_t dtw_wps_shift(DTWWps* p, idx_t ri) {
+    if (ri < p->ri2) {
+        return 0;
+    }
+    if (ri < p->ri3) {
+        return 1 + ri - p->ri2;
+    }
+    if (p->ri2 == p->ri3) {
+        return 0;
+    }
+    return p->ri3 - p->ri2;
+}
+
+
+/*!
 Compute all warping paths between two series.
  
 @param wps Empty array of length `(l1+1)*min(l2+1, abs(l1-l2) + 2*window-1)` in which the warping paths will be stored.
